@@ -66,7 +66,13 @@ const sleep = () => new Promise(r => setTimeout(r, 0));
 async function settle() { for (let i = 0; i < 5; i++) { globalThis.gc(); await sleep(); } }
 
 // build one argument; registers every JS object that should be tracked in `tracked` (name -> object) and every buffer size in `bufs`
-async function build(p, tracked, bufs) {
+async function build(p, tracked, bufs, vals) {
+  vals = vals || {};
+  const v_ = await build_(p, tracked, bufs, vals);
+  vals[p.name] = v_;
+  return v_;
+}
+async function build_(p, tracked, bufs, vals) {
   const mk = async (cname, nlts, tag) => { argPtr += 64; const C = await cls(cname); const o = new C(IC, argPtr, [], ...Array(nlts).fill([])); tracked[tag] = { obj: o, ptr: argPtr }; return o; };
   if (p.kind === "op") return mk("Op", 0, p.name);
   if (p.kind === "opl") return mk("OpL", 2, p.name);
@@ -79,20 +85,22 @@ async function build(p, tracked, bufs) {
     const a = await mk("Op", 0, p.name + ".a");
     bufs[p.name + ".b"] = p.n;
     const C = await cls("StL");
-    return new C({ a, b: "t".repeat(p.n), n: 7 });
+    vals[p.name + ".a"] = a; vals[p.name + ".b"] = "t".repeat(p.n);
+    return new C({ a, b: vals[p.name + ".b"], n: 7 });
   }
   if (p.kind === "stb") {
     const a = await mk("Op", 0, p.name + ".a");
     const c = await mk("Op", 0, p.name + ".c");
     bufs[p.name + ".b"] = p.n * 2;
     const C = await cls("StB");
-    return new C({ a, b: Array.from({ length: p.n }, (_, i) => i), c });
+    vals[p.name + ".a"] = a; vals[p.name + ".c"] = c; vals[p.name + ".b"] = Array.from({ length: p.n }, (_, i) => i);
+    return new C({ a, b: vals[p.name + ".b"], c });
   }
   if (p.kind === "nested") {
     const obj = {};
     for (const f of p.fields) {
       const sub = Object.assign({}, f, { name: p.name + "." + f.name });
-      obj[f.name] = f.kind === "u16" ? 5 : await build(sub, tracked, bufs);
+      obj[f.name] = f.kind === "u16" ? 5 : await build(sub, tracked, bufs, vals);
     }
     const C = await cls(p.cls);
     return new C(obj);
@@ -120,6 +128,29 @@ async function runCase(c, mode) {
   return { res, out };
 }
 
+// ---- _fieldsForLifetimeX getters of nested borrowing structs, evaluated (not parsed): before and after reassigning a field of a *nested*
+// struct in place (the outer object is the same, its getters must follow)
+const getters = [];
+for (const g of (spec.getters || [])) {
+  try {
+    const tracked = {}, bufs = {}, vals = {};
+    const sObj = await build({ name: "s", kind: "nested", cls: g.cls, fields: g.fields }, tracked, bufs, vals);
+    const label = (el) => {
+      for (const [k, v] of Object.entries(vals)) { if (k !== "s" && (v === el || (typeof v === "string" && typeof el === "string" && v === el))) return k; }
+      return "?" + typeof el;
+    };
+    const snap = () => { const o = {}; for (const lt of g.lts) { const arr = sObj["_fieldsForLifetime" + lt.toUpperCase()]; o[lt] = Array.isArray(arr) ? arr.map(label) : ["<not an array: " + typeof arr + ">"]; } return o; };
+    const before = snap();
+    const replaced = [];
+    for (const f of g.fields) if (f.kind === "stl" || f.kind === "stb") {
+      argPtr += 64; const Op = await cls("Op"); const fresh = new Op(IC, argPtr, []);
+      delete vals["s." + f.name + ".a"]; vals["s." + f.name + ".a#2"] = fresh;
+      sObj[f.name].a = fresh; replaced.push("s." + f.name + ".a");
+    }
+    getters.push({ cls: g.cls, before, after: snap(), replaced });
+  } catch (e) { getters.push({ cls: g.cls, harness_error: String(e && e.stack || e).slice(0, 300) }); }
+}
+
 const pending = [];
 for (const c of spec.cases) for (const mode of c.modes) {
   try { pending.push(await runCase(c, mode)); }
@@ -145,7 +176,7 @@ const weaks = pending.filter(p => p.out.weak).map(p => Object.values(p.out.weak)
 pending.length = 0;
 await settle();
 for (const ws of weaks) for (const w of ws) { total++; if (w.deref() === undefined) released++; }
-console.log(JSON.stringify({ report, released_after_results_dropped: released, tracked_total: total, uncaught: st.uncaught }));
+console.log(JSON.stringify({ report, getters, released_after_results_dropped: released, tracked_total: total, uncaught: st.uncaught }));
 '''
 
 ARM_RE = re.compile(r"^Result<(.*)>$")
@@ -252,10 +283,35 @@ def unique_sizes(sigs):
     return out
 
 
-def write_harness(outdir, cases):
+def write_harness(outdir, cases, getters=None):
     open(os.path.join(outdir, "diplomat-wasm.mjs"), "w").write(STUB)
     open(os.path.join(outdir, "vf_gc.mjs"), "w").write(DRIVER)
-    json.dump({"cases": cases}, open(os.path.join(outdir, "vf_gc.json"), "w"))
+    json.dump({"cases": cases, "getters": getters or []}, open(os.path.join(outdir, "vf_gc.json"), "w"))
+
+
+def getter_cases(nested, ncases):
+    """one entry per nested struct: its JS field description (taken from the cases nested_cases() built) and the labels each lifetime's getter must yield"""
+    out = []
+    for name, lts, fields in nested:
+        jf = [c for c in ncases if c["params"][0]["cls"] == name][0]["params"][0]["fields"]
+        exp = {}
+        for l in lts:
+            need = set()
+            for fn, ty, uses in fields:
+                for kind, ul in uses:
+                    if ul != l:
+                        continue
+                    if kind == "direct":
+                        need.add("s." + fn)
+                    elif kind == "p":
+                        need.add("s.%s.a" % fn)
+                    else:
+                        need.add("s.%s.b" % fn)
+                        if ty.startswith("StB"):
+                            need.add("s.%s.c" % fn)
+            exp[l] = sorted(need)
+        out.append({"cls": name, "lts": lts, "fields": jf, "expected": exp})
+    return out
 
 
 def nested_cases(nested):
